@@ -1003,8 +1003,8 @@ func (view *View) replace(ctx context.Context, flags *option.Flags, fields []par
 	}
 
 	insertRecords := make(RecordSet, 0, len(records))
-	for i, isReplaced := range replacedRecord {
-		if !isReplaced {
+	for i := range records {
+		if !replacedRecord[i] {
 			insertRecords = append(insertRecords, records[i])
 		}
 	}
